@@ -261,12 +261,22 @@ Definition cname_eqb (a b : cname) : bool :=
   end.
 Definition is3 (n : cname) : bool := match n with NEvent | NTodo | NJournal => true | _ => false end.
 
+(* The `name` attribute as the client spelled it: component names are compared after `.upper()`, so the raw text is
+   abstracted as its upper-casing plus whether it already was upper case ("vevent", "Vevent" -> (NEvent, false)).
+   `upper` is str.upper(); `raw_is` is the comparison WITHOUT folding (what the code would do if a site forgot it). *)
+Record rawname := { rn_upper : cname; rn_is_upper : bool }.
+Definition upper (n : rawname) : cname := rn_upper n.
+Definition raw_is (n : rawname) (c : cname) : bool := rn_is_upper n && cname_eqb (rn_upper n) c.
+Definition U (c : cname) : rawname := {| rn_upper := c; rn_is_upper := true |}.
+(* the value of a name expression of the code: folded, or the raw text *)
+Inductive folded := Folded (c : cname) | Raw (n : rawname).
+
 (* children of a comp-filter (or of a filter) element *)
 Inductive elem :=
 | EIsNotDefined
 | ETimeRange (r : trange)
 | EPropFilter (p : Z)                 (* opaque: identified by a number, evaluated by a parameter *)
-| ECompFilter (name : cname) (children : list elem)
+| ECompFilter (name : rawname) (children : list elem)
 | EUnknown.                           (* any other element *)
 
 Record item := { it_comp : cname;     (* item.component_name (find_tag) *)
@@ -310,7 +320,8 @@ Section Filters.
     end.
 
   (* level 1: tag = item.component_name *)
-  Definition comp_match1 (it : item) (name : cname) (children : list elem) : option bool :=
+  Definition comp_match1 (it : item) (raw : rawname) (children : list elem) : option bool :=
+    let name := upper raw in                     (* name = filter_.get("name", "").upper() *)
     comp_match_body (it_comp it) (fun n => negb (is3 n))
       (fun child => match child with
                     | EPropFilter p => Some (prop_match p it)
@@ -321,7 +332,8 @@ Section Filters.
                     end) name children.
 
   (* level 0: tag = item.name = "VCALENDAR" *)
-  Definition comp_match0 (it : item) (name : cname) (children : list elem) : option bool :=
+  Definition comp_match0 (it : item) (raw : rawname) (children : list elem) : option bool :=
+    let name := upper raw in                     (* name = filter_.get("name", "").upper() *)
     comp_match_body NCal (fun n => negb (cname_eqb n NCal))
       (fun child => match child with
                     | EPropFilter p => Some (prop_match p it)
@@ -371,7 +383,8 @@ Section Filters.
     | [] => (None, simple)
     | c :: rest =>
         match c with
-        | ECompFilter tag ch =>
+        | ECompFilter raw ch =>
+            let tag := upper raw in                                 (* tag = comp_filter.get("name", "").upper() *)
             if existsb is_not_defined ch then sp_comp rest false    (* simple = False; continue *)
             else
               let simple1 := simple && len_le1 ch in
@@ -389,11 +402,13 @@ Section Filters.
     | [] => (None, MInf, PInf, simple)
     | c :: rest =>
         match c with
-        | ECompFilter NCal ch =>
-            match sp_comp ch (simple && len_le1 ch) with
-            | (Some (tag, s, e, sim), _) => (Some tag, s, e, sim)
-            | (None, simple') => sp_col rest simple'
-            end
+        | ECompFilter raw ch =>
+            if cname_eqb (upper raw) NCal                           (* col_filter.get("name", "").upper() != "VCALENDAR" *)
+            then match sp_comp ch (simple && len_le1 ch) with
+                 | (Some (tag, s, e, sim), _) => (Some tag, s, e, sim)
+                 | (None, simple') => sp_col rest simple'
+                 end
+            else sp_col rest false
         | _ => sp_col rest false
         end
     end.
@@ -459,7 +474,7 @@ Section FreeBusy.
                     else Some (map (fun se => (fst se, snd se, fb_type it)) occ)).
 
   (* the filter built by free_busy_report: VCALENDAR > VEVENT > time-range *)
-  Definition fb_filter (r : trange) : list (list elem) := [[ECompFilter NCal [ECompFilter NEvent [ETimeRange r]]]].
+  Definition fb_filter (r : trange) : list (list elem) := [[ECompFilter (U NCal) [ECompFilter (U NEvent) [ETimeRange r]]]].
 
   Fixpoint fb_loop (max_occurrence : Z) (r : trange) (l : list (fbitem * bool)) : option (list (xt * xt * fbtype)) :=
     match l with
